@@ -148,6 +148,27 @@ theorem retryable_iff_nothing_consumed (C : Crypto) (s : SReader) (nx : Bytes) (
     SReader.run C ⟨r, some e, later⟩ ops = ops.map (fun op => failedOut op e) :=
   ⟨boundary_timeout_unchanged C s nx rest herr hleft hwire hlater op, failed_run C r e later ops⟩
 
+/-- **client_first_read_failure** (the continuation after a failed first read, whatever is on the
+wire): a client conn that has no reader yet calls `Read` and gets an error other than end of stream —
+prefix mismatch, a response header cut short or segmented, authentication failure, a header that is
+not bound to the request, a bad first payload chunk. Then either the error is recorded and EVERY later
+call of any kind returns it and hands over nothing, or nothing of the response was consumed and the
+conn is exactly a fresh client conn on the same bytes (so the next call is a first call again, covered
+by `response_bound` / `response_roundtrip`). In no case does a second attempt start in the middle of
+the response. (First call = `Read`; the copy paths use the same `initRead` / first-payload code and
+are tied by the tamper engine.) -/
+theorem client_first_read_failure (C : Crypto) (c : CReader) (now : Int) (n : Nat) (e : Err)
+    (hr : c.r = none) (he : c.err = none) (ht : c.touts = [])
+    (hh : (c.readS C now n).1.hardErr = some e) (now' : Int) :
+    ((∀ m, (c.readS C now n).2.readS C now' m = (.fail e, (c.readS C now n).2)) ∧
+     (c.readS C now n).2.writeToS C now' = (.copied [] (some e), (c.readS C now n).2) ∧
+     (∀ st, (c.readS C now n).2.tunnelS C now' st = (.copied [] (some e), (c.readS C now n).2))) ∨
+    ((c.readS C now n).2.r = none ∧ (c.readS C now n).2.err = none ∧
+      ¬ ((c.readS C now n).2.segs.flatten.length < c.segs.flatten.length)) := by
+  rcases client_first_failure C c now n e hr he ht hh with h | h
+  · exact Or.inl (client_failed C _ e h now')
+  · exact Or.inr h
+
 end SSV.C02
 
 #print axioms SSV.C02.authCrypto_auth
@@ -160,3 +181,4 @@ end SSV.C02
 #print axioms SSV.C02.reader_prefix_continued
 #print axioms SSV.C02.failed_conn_stays_failed
 #print axioms SSV.C02.retryable_iff_nothing_consumed
+#print axioms SSV.C02.client_first_read_failure
